@@ -1,5 +1,5 @@
 """Generic-rule sweep (both tiers; the thorough tier additionally inlines callees to depth 8 in the formula rules): the
-generic rules G1, G2, G2b, G3, G5, G6, G7, G8, G9, G10, G11, G12 ... G17 over *every* function / class whose primary
+generic rules G1, G2, G2b, G3, G5, G6, G7, G8, G9, G10, G11, G13 ... G18 over *every* function / class whose primary
 property (attribution table below) is the one being checked.  A generic finding is
 attributed to exactly one property, so a defect in one component never raises another property's alarm."""
 from __future__ import annotations
@@ -26,7 +26,7 @@ ATTRIBUTION = [
 
 
 # Supporting code: modules a property's mechanism is built on although another property owns them.  The call- and
-# argument-level rules (G1, G2, G2b, G12, G13, G14) are also run over these for that property: a crossed wire in a synapse
+# argument-level rules (G1, G2, G2b, G13, G14, G15, G17, G18) are also run over these for that property: a crossed wire in a synapse
 # constructor breaks the connection-delay property as much as the synapse property.
 SECONDARY = {
     "C02": ["functional.interpolation", "functional.extrapolation", "core.tensor"],
@@ -72,7 +72,7 @@ def sweep(ctx):
     G.g10_identical_arms(ctx, funcs, rule=pre + "G10")
     G.g11_einops(ctx, funcs, rule=pre + "G11")
     G.g2b_role_tokens(ctx, funcs, rule=pre + "G2b")
-    G.g12_dead_parameter(ctx, funcs, rule=pre + "G12")
+    G.g12_dead_parameter(ctx, funcs, rule=pre + "G18")
     G.g13_inplace_alias(ctx, funcs, rule=pre + "G13")
     G.g14_exact_compare(ctx, funcs, rule=pre + "G14")
     G.g15_leaked_loop_variable(ctx, funcs, rule=pre + "G15")
@@ -85,7 +85,7 @@ def sweep(ctx):
         G.g1_signatures(ctx, sec, rule=pre2 + "G1")
         G.g2_name_swap(ctx, sec, rule=pre2 + "G2")
         G.g2b_role_tokens(ctx, sec, rule=pre2 + "G2b")
-        G.g12_dead_parameter(ctx, sec, rule=pre2 + "G12")
+        G.g12_dead_parameter(ctx, sec, rule=pre2 + "G18")
         if pid != "C14":     # configuration-path independence is about options and their forwarding, not about aliasing or rounding
             G.g13_inplace_alias(ctx, sec, rule=pre2 + "G13")
             G.g14_exact_compare(ctx, sec, rule=pre2 + "G14")
